@@ -622,6 +622,37 @@ func (w *World) block(on string) {
 	// next == self happens when a timer readied us
 }
 
+// Settle lets the other tasks run, without advancing the clock, until each of
+// them waits for a timer or a lock: background work that was in flight at this
+// instant (a flusher in the middle of a commit) has completed when it returns.
+// The choice of who runs is fixed (lowest task id first), so it does not depend
+// on the schedule mode.
+//
+//go:norace
+func (w *World) Settle() {
+	if w.dead || w.exclusive {
+		return
+	}
+	self := w.cur
+	for n := 0; n < 100000; n++ {
+		var next *Task
+		for _, t := range w.tasks {
+			if t != self && t.state == tRunnable {
+				next = t
+				break
+			}
+		}
+		if next == nil {
+			return
+		}
+		if w.anyExtern {
+			w.reenter()
+		}
+		w.step("settle")
+		w.switchTo(next)
+	}
+}
+
 // Sleep advances simulated time for the current task.
 //
 //go:norace
